@@ -4,7 +4,7 @@ CONSTANTS
   Taints = {}
   GenMode = FALSE
   MaxOps = 3
-  MaxPost = 1
+  MaxPost = 2
   MaxRecs = 4
   MaxBatch = 2
   MaxEpoch = 2
